@@ -3876,7 +3876,14 @@ class StaleFileRemovalCommand : public Command {
     return false;
   }
 
-  virtual void start(BuildSystem&, TaskInterface) override {}
+  virtual void start(BuildSystem&, TaskInterface) override {
+    // The command object outlives a build when the build system instance is
+    // reused: what is stale is decided anew in every build, from the prior
+    // value provided in that build.
+    hasPriorResult = false;
+    filesToDelete.clear();
+    computedFilesToDelete = false;
+  }
 
   virtual void providePriorValue(BuildSystem&, TaskInterface,
                                  const BuildValue& value) override {
